@@ -255,7 +255,21 @@ def any_allowed(rng):
 def mixed_case(rng, tables):
     k = rng.random()
     if k < 0.4:
-        return gen.conformant_stream(rng, tables, parsers=rng.choice([1, 1, 2]), allowed=any_allowed(rng))
+        allowed = any_allowed(rng)
+        c = gen.conformant_stream(rng, tables, parsers=rng.choice([1, 1, 2]), allowed=allowed)
+        extras = [v for v in (allowed or []) if v not in (5, 7, 9, 10)]
+        if extras and rng.random() < 0.6:
+            # an allowed version the library has no decoder for, at a packet boundary: must be an
+            # UnknownVersion error carrying the rest, never a silent stop
+            n = rng.choice([0, 2, 6, 20])
+            tail = be(rng.choice(extras), 2) + (bytes(n) if rng.random() < 0.5 else rng.randbytes(n))
+            for i in range(len(c.ops) - 1, -1, -1):
+                if c.ops[i].startswith("B "):
+                    parts = c.ops[i].split()
+                    parts[2] = hexs(tail) if parts[2] == "-" else parts[2] + hexs(tail)
+                    c.ops[i] = " ".join(parts)
+                    break
+        return c
     if k < 0.65:
         return gen.mutated_stream(rng, tables)
     if k < 0.85:
@@ -354,8 +368,9 @@ def filter_case(rng, tables):
     seq = gen.packet_sequence(rng, tables, npk=rng.choice([1, 2, 3, 4, 5]))
     k = rng.random()
     if k < 0.3:
-        v = rng.choice([0, 1, 6, 8, 11, 255, 256, 65535])
-        seq.insert(rng.randrange(len(seq) + 1), (be(v, 2) + rng.randbytes(rng.choice([0, 3, 20])), v, "unknown"))
+        v = rng.choice([0, 0, 1, 6, 8, 11, 255, 256, 65535])
+        n = rng.choice([0, 2, 3, 4, 20])
+        seq.insert(rng.randrange(len(seq) + 1), (be(v, 2) + (bytes(n) if rng.random() < 0.4 else rng.randbytes(n)), v, "unknown"))
     allowed = [v for v in [5, 7, 9, 10] if rng.random() < 0.6]
     if rng.random() < 0.4:
         allowed += rng.sample([0, 1, 6, 8, 11, 255, 256, 65535], rng.choice([1, 2, 3]))
@@ -468,8 +483,9 @@ class C16(Prop):
     keys = ["R"]
     technique = "Coq: JSON tree of every result type is total and its compact text re-reads to the same tree; correspondence: serde_json text parsed by a strict reader and compared as an ordered tree; twin parsers"
     level_text = ("Theorems C16_* (coq/Props/C16.v): the model's serde shape to_json is a total function of the result (so equal results give equal "
-                  "trees: determinism), records list their fields in template order with decimal-index keys, and the model's compact printer is injective "
-                  "on the leaves it prints. The crate's serde_json text is parsed with Python's strict JSON reader and compared with the model's tree "
+                  "trees: determinism), records list their fields in template order with decimal-index keys. C16_wellformed / C16_text_faithful: the "
+                  "model's compact text of EVERY JSON tree is accepted in full by the grammar-directed reader Model/JsonRead.v and reads back to the tree "
+                  "(read_json (print_json j) = Some (plain j)), so the text is well-formed JSON and determines the tree. The crate's serde_json text is parsed with Python's strict JSON reader and compared with the model's tree "
                   "node by node including key order, 128-bit integers exactly, floats by bit pattern (non-finite = null), strings as UTF-8.")
     level_note = "serde_json's own printer (number and string formatting) is compared, not modelled"
     partial = "serde_json's text printer is compared with the model's tree, not modelled; well-formedness of the crate's text is decided by an independent strict reader on every generated result"
@@ -520,12 +536,12 @@ class C06(Prop):
     pid = "C06"
     keys = ["R:frame", "S"]
     gen_deps = ("Tables.v", "Layouts.v", "Inventory.v")
-    technique = "Coq: monotonicity invariant over histories (caches only grow), per-step frame conditions by protocol and version gate, last-definition-wins lemma for the insert fold; correspondence on S after every call, 1-3 parsers"
+    technique = "Coq: monotonicity invariant over histories (caches only grow), per-step frame conditions by protocol and version gate, last-definition-wins lemma for the insert fold, origin invariant (every cache entry was there before the call or its record occurs in the buffer); correspondence on S after every call, 1-3 parsers"
     level_text = ("Theorems C06_* (coq/Props/C06.v): for every buffer, state and allowed set no template is ever evicted (invariant lifted over the "
                   "packet loop, hence over every history of calls); a step whose version word is not 9 (not 10) leaves the V9 (IPFIX) caches equal, a "
                   "disallowed or missing version word leaves the whole state equal; after a template flowset an id maps to the last record of that id; "
                   "data is decoded with the entry of the state just before it; splitting into calls is immaterial (C11); no static or shared item exists.")
-    level_note = "the clause 'only complete, well-formed template records are inserted' is covered by correspondence on S (not a theorem yet); instance isolation is by construction in the model and by the regenerated static-items inventory plus multi-parser correspondence for the crate"
+    level_note = "C06_entries_were_sent: after any call, failed or not, every entry of the four caches was there before or its record's wire form occurs in the buffer; instance isolation is by construction in the model and by the regenerated static-items inventory plus multi-parser correspondence for the crate"
     rule = ("histories of 2-8 calls over 1-3 parsers: template definitions and redefinitions over 3 ids shared between V9 and IPFIX, data, fixed-format "
             "packets, mutated packets and garbage, restricted allowed sets; caches compared after every call; non-trivial = at least one template cached; "
             "distinct by hash")
@@ -545,8 +561,10 @@ class C06(Prop):
         return out
 
     def oracle(self, case, obs, crash, tables):
-        return (oracle.c06(case, obs, crash)
-                + oracle.c04(case, obs, crash, tables) + oracle.c05(case, obs, crash, tables))
+        # the reference decode detects data decoded under the wrong template; deviations that are
+        # C04's / C05's own finding classes are theirs to report
+        ref = [(c, m) for c, m in oracle.c04(case, obs, crash, tables) + oracle.c05(case, obs, crash, tables) if c is None]
+        return oracle.c06(case, obs, crash) + ref
 
     def nontrivial(self, case, obs):
         for o in obs:
@@ -643,15 +661,16 @@ def multi_template_case(rng, tables):
 class C04(Prop):
     pid = "C04"
     keys = ["R", "D", "S"]
-    technique = "Coq: print-then-parse for values (every supported data type x width), records, data flowsets (record count and padding) and template records against Spec/Interp.v; generated type tables; correspondence + independent RFC 3954 reference decoder"
+    technique = "Coq: print-then-parse against an RFC 3954 encoder (Spec/V9Stream.v, Spec/Interp.v): values (every supported data type x width), records, data flowsets, template / options-template records, options data, and the WHOLE PACKET with the cache threaded through (C04_packet); generated type tables; correspondence + independent RFC 3954 reference decoder"
     level_text = ("Theorems C04_* (coq/Props/C04.v): for every supported (data type, width) the decoder returns the big-endian interpretation of exactly "
-                  "the allotted bytes (Spec/Interp.v); a record is its values in template order; a data flowset body of ANY number of records plus padding "
-                  "shorter than a record decodes to exactly those records, in order, with that padding; template records are reported as sent; the flowset "
-                  "envelope delimits the body by length-4 and selects the template cached just before it; header read at the RFC offsets. Partial: the "
-                  "composition into a whole-stream theorem parse(encode P) = decoded P (multi-flowset packets, options data) is covered by the reference "
-                  "decoder on generated streams, not yet by one theorem.")
-    level_note = "whole-stream composition and options-data records are compared against the independent reference decoder (tools/refdec.py), not proved"
-    partial = "theorems are per value / record / data flowset / template record / envelope; the packet-level composition and options data are checked against tools/refdec.py"
+                  "the allotted bytes (Spec/Interp.v); a data flowset body of ANY number of records plus padding shorter than a record decodes to exactly "
+                  "those records, in order, with that padding; template and options-template records are reported as sent. C04_packet: for every packet "
+                  "built by the encoder of Spec/V9Stream.v from a header and ANY list of template / options-template / data / options-data flowsets that is "
+                  "conformant for the collector state it meets, every state and any bytes after it, parse_v9 returns exactly the expected decode, exactly "
+                  "those bytes as the rest, and exactly the expected cache (last definition wins). An options data flowset with more than one record is "
+                  "decoded as its first record only: known finding K_C04_options_multi_record, with the refuting witness C04_options_multi_refuted.")
+    level_note = "the encoder/expected-decode pair in Spec/V9Stream.v is the specification; the independent reference decoder tools/refdec.py cross-checks it on generated streams"
+    partial = ""
     rule = ("RFC 3954-conformant streams from a random exporter (1-6 flowsets per packet, 1-3 templates per template flowset, every known field type and "
             "unknown ones, all supported widths, 0-40 records, padding 0-3, options templates and options data, redefinitions), 1-2 parsers, packets "
             "grouped into calls at random; every packet re-decoded by the independent reference decoder; non-trivial = at least one data record "
@@ -678,13 +697,15 @@ class C04(Prop):
 
 class C05(C04):
     pid = "C05"
-    technique = "Coq: print-then-parse for fixed, enterprise and variable-length (1- and 3-byte prefix) values against Spec/Interp.v, record consumption accounting for the record loop, message/set envelopes; generated type tables; correspondence + independent RFC 7011 reference decoder"
+    technique = "Coq: print-then-parse against an RFC 7011 encoder (Spec/IxStream.v): fixed, enterprise and variable-length (1- and 3-byte prefix) values, the record loop on records of different sizes (C05_data_set), template / options-template sets, and the WHOLE MESSAGE with the caches threaded through (C05_message); generated type tables; correspondence + independent RFC 7011 reference decoder"
     level_text = ("Theorems C05_* (coq/Props/C05.v): fixed-length values are the interpretation of exactly the declared bytes, enterprise values the bytes "
-                  "verbatim, variable-length values take their length from the 1-byte or 0xFF+2-byte prefix; one pass over the template consumes exactly "
-                  "the bytes it reports (so consecutive records are contiguous); all sets inside the message length are visited, each on length-4 bytes; a "
-                  "data set uses the template cached just before it; header at the RFC offsets. Partial: the whole-stream composition is checked against "
-                  "the reference decoder, not proved as one theorem.")
-    level_note = "template sets with more than one record (known finding K_C05_multi_template) and 8/16-byte signed values (K_C05_signed_wide) are excluded; composition checked against tools/refdec.py"
+                  "verbatim, variable-length values take their length from the 1-byte or 0xFF+2-byte prefix. C05_data_set: a set body of ANY non-empty list "
+                  "of records (each field sent with either prefix form) plus padding shorter than the smallest record decodes to exactly those records in "
+                  "order with that padding. C05_message: for every message built by the encoder of Spec/IxStream.v from a header and ANY list of template, "
+                  "options-template and data sets conformant for the collector state it meets, every state and any bytes after it, parse_ipfix returns "
+                  "exactly the expected decode, those bytes as the rest, and the expected caches.")
+    level_note = "template sets with more than one record (known finding K_C05_multi_template) and 8/16-byte signed values (K_C05_signed_wide) are outside the conformance predicate; tools/refdec.py cross-checks the specification on generated streams"
+    partial = ""
     rule = ("RFC 7011-conformant message streams (template / options-template / data sets in any order, enterprise fields, variable-length fields in "
             "short and long form, zero-length values, all supported widths, 1-40 records, padding), plus one case with two template records in one "
             "template set; every message re-decoded by the independent reference decoder; non-trivial = at least one data value decoded; distinct by hash")
@@ -776,8 +797,10 @@ class C10(C09):
     level_text = ("Theorems C10_* (coq/Props/C10.v): value-level exactness as C09 (shared predicate) for fixed-length and enterprise fields; template and "
                   "options-template records re-export exactly including the enterprise bit and enterprise number (print-then-parse of the field "
                   "specifier); message and set envelopes. Classes: the C09 value kinds, signed integers of width 1/2/8/16 (widened), variable-length "
-                  "fields (prefix not retained), sets dropped after an undecodable set. Partial as C09.")
-    level_note = "classes K_C10_* mirrored in tools/oracle.py; message-level composition by correspondence"
+                  "fields (prefix not retained), sets dropped after an undecodable set. C10_message_roundtrip: EVERY IPFIX message parse_bytes reports "
+                  "whose data sets are governed by templates without variable-length fields, whose values are of the lossless kinds and whose sets fill "
+                  "the message length (ix_lossless, decidable) re-exports to exactly the bytes it occupied, for any state and set mix.")
+    level_note = "classes K_C10_* mirrored in tools/oracle.py; the three situations ix_lossless excludes are exactly those classes"
     rule = ("IPFIX streams, 60% over lossless fixed-length kinds and enterprise fields, 40% over all kinds including variable-length fields; several "
             "sets per message; non-trivial = a message with at least one data value re-exported; distinct by hash")
 
